@@ -15,7 +15,7 @@ Proved for every byte string:
 * `replCount_zero_iff`                 — no U+FFFD is inserted exactly for valid input;
 * `lossy_ascii`                        — the ASCII bytes of the output are the ASCII bytes of the input, in
                                           order: no separator, dot, colon or letter is added, lost or moved;
-* `lossy_length_le`                    — the output is at most three times as long as the input.
+* `lossy_length_le`, `lossy_length_ge`  — the output is at most three times as long as the input and never shorter.
 -/
 import TypedPathVerif.Spec.Lossy
 import TypedPathVerif.Lemmas.Utf8
@@ -128,6 +128,10 @@ theorem lossy_ascii (b : Bytes) : (lossy b).filter isAscii = b.filter isAscii :=
 
 /-- a replacement character (three bytes) stands for at least one input byte -/
 theorem lossy_length_le (b : Bytes) : (lossy b).length ≤ 3 * b.length := by
+  fun_induction lossy b <;> simp [REPL] at * <;> omega
+
+/-- … and is never shorter than what it replaces: no byte of the path is dropped without a trace -/
+theorem lossy_length_ge (b : Bytes) : b.length ≤ (lossy b).length := by
   fun_induction lossy b <;> simp [REPL] at * <;> omega
 
 /-- no replacement character is inserted exactly for valid input -/
